@@ -465,6 +465,8 @@ type c20cmp struct {
 	accum   map[*types.Struct]*c20accum
 	order   []*types.Struct
 	oneWay  bool
+	// leaf is called for every option both sides know (field, its schema node)
+	leaf func(f *types.Var, n map[string]any, path, label string)
 }
 
 func (c *c20cmp) compare(goT types.Type, pos token.Pos, n map[string]any, path, label string) {
@@ -560,6 +562,11 @@ func (c *c20cmp) descend(gk map[string]*types.Var, sk *schemaKeys, label string)
 	}
 	sort.Strings(ks)
 	for _, k := range ks {
+		if c.leaf != nil {
+			if sub, subPath := c.s.deref(sk.Props[k], sk.Paths[k]); sub != nil {
+				c.leaf(gk[k], sub, subPath, label+"."+k)
+			}
+		}
 		ft := elemStruct(gk[k].Type())
 		if ft == nil {
 			continue
@@ -772,6 +779,51 @@ func checkC20(w *World, r *Report) {
 	ri3 := r.Rule("C20.3", 20, "every configuration property the loader reads (koanf-tagged fields reachable from config.Configuration that module code reads) is accepted by the schema at some position of its struct, i.e. can be given in a file and not only through the environment")
 	if cfgT := w.Named("internal/config", "Configuration"); cfgT != nil {
 		cm3 := &c20cmp{w: w, r: r, s: s, ri: ri3, tag: "koanf", seen: map[string]bool{}, accum: map[*types.Struct]*c20accum{}}
+		ri5 := r.Rule("C20.5", 3, "every literal a configuration decode hook maps to a value of an enumerated property is accepted by that property's schema enum (else the value is usable through the environment only)")
+		hooks := enumHooks(w)
+		if len(hooks) < 3 {
+			r.Undecided(ri5, fmt.Sprintf("only %d enumerating decode hooks found in internal/config", len(hooks)))
+		}
+		matched := map[*enumHook]bool{}
+		cm3.leaf = func(f *types.Var, n map[string]any, path, label string) {
+			for _, h := range hooks {
+				ft := f.Type()
+				if sl, ok := ft.Underlying().(*types.Slice); ok && !h.matches(ft) {
+					ft = sl.Elem()
+				}
+				if !h.matches(f.Type()) && !h.matches(ft) {
+					continue
+				}
+				enum, _ := n["enum"].([]any)
+				epath := path
+				if enum == nil {
+					if items, ok := n["items"].(map[string]any); ok {
+						enum, _ = items["enum"].([]any)
+						epath = path + "/items"
+					}
+				}
+				if enum == nil {
+					continue // the schema does not enumerate this property: any string passes
+				}
+				matched[h] = true
+				have := map[string]bool{}
+				for _, e := range enum {
+					if sv, ok := e.(string); ok {
+						have[sv] = true
+					}
+				}
+				var missing []string
+				for _, c := range h.Cases {
+					if !have[c] {
+						missing = append(missing, c)
+					}
+				}
+				sort.Strings(missing)
+				r.Analysed(w.FnName(h.Fn))
+				r.Ob(ri5, "enum|"+h.Fn.Name()+"|"+epath, h.Fn.Pos(), len(missing) == 0,
+					fmt.Sprintf("%s maps %v for %s, but the schema enum at %s does not list them: usable from the environment, rejected in a file", h.Fn.Name(), missing, label, epath))
+			}
+		}
 		cm3.compare(cfgT, cfgT.Obj().Pos(), s.root, "#", "config")
 		cm.skipped = append(cm.skipped, cm3.skipped...)
 		read, fwd := readFields(w)
@@ -941,5 +993,77 @@ func cacheTypes(w *World) []mechType {
 		}
 	}
 	sort.Slice(out, func(i, j int) bool { return out[i].Name < out[j].Name })
+	return out
+}
+
+// enumHook: a decode hook of internal/config that compares its input with string literals and
+// produces a value of one target type.
+type enumHook struct {
+	Fn     *ssa.Function
+	Cases  []string
+	Target types.Type // from reflect.TypeOf(T(..)) in the hook
+	Name   string     // or from to.Name() == "<Name>"
+}
+
+func (h *enumHook) matches(t types.Type) bool {
+	if h.Target != nil && types.Identical(t, h.Target) {
+		return true
+	}
+	if n, ok := t.(*types.Named); ok && h.Name != "" && n.Obj().Name() == h.Name && n.Obj().Pkg() != nil && n.Obj().Pkg().Path() == fnPkgPath(h.Fn) {
+		return true
+	}
+	return false
+}
+
+func enumHooks(w *World) []*enumHook {
+	var out []*enumHook
+	for _, fn := range w.Funcs {
+		if !strings.HasSuffix(fnPkgPath(fn), "/internal/config") || fn.Parent() != nil || len(fn.Params) != 3 || fn.Signature.Recv() != nil {
+			continue
+		}
+		// func(from reflect.Type, to reflect.Type, data any) (any, error)
+		if fn.Params[0].Type().String() != "reflect.Type" || fn.Params[1].Type().String() != "reflect.Type" {
+			continue
+		}
+		h := &enumHook{Fn: fn}
+		seen := map[string]bool{}
+		for _, f := range withClosures(fn) {
+			eachInstr(f, func(in ssa.Instruction) {
+				switch x := in.(type) {
+				case *ssa.BinOp:
+					if x.Op != token.EQL {
+						return
+					}
+					for _, pair := range [][2]ssa.Value{{x.X, x.Y}, {x.Y, x.X}} {
+						k, ok := stripConv(pair[1]).(*ssa.Const)
+						if !ok || k.Value == nil || k.Value.Kind() != constant.String {
+							continue
+						}
+						// compared with the hook's data (or an element of it), not with to.Name()
+						if c, isCall := pair[0].(*ssa.Call); isCall && strings.HasSuffix(callName(c.Common()), "Type.Name") {
+							h.Name = constant.StringVal(k.Value)
+							continue
+						}
+						if _, isIface := pair[0].Type().Underlying().(*types.Interface); !isIface {
+							continue
+						}
+						if sv := constant.StringVal(k.Value); !seen[sv] {
+							seen[sv] = true
+							h.Cases = append(h.Cases, sv)
+						}
+					}
+				case *ssa.Call:
+					if callName(x.Common()) == "reflect.TypeOf" && len(x.Common().Args) == 1 {
+						h.Target = stripConv(x.Common().Args[0]).Type()
+					}
+				}
+			})
+		}
+		if len(h.Cases) > 0 && (h.Target != nil || h.Name != "") {
+			sort.Strings(h.Cases)
+			out = append(out, h)
+		}
+	}
+	sort.Slice(out, func(i, j int) bool { return out[i].Fn.Name() < out[j].Fn.Name() })
 	return out
 }
